@@ -17,3 +17,7 @@ BOX_UNITS = {0: SB_UNITS[0] + ["crypto_box/crypto_box_easy.c", "crypto_box/crypt
                              "crypto_box/curve25519xchacha20poly1305/box_seal_curve25519xchacha20poly1305.c",
                              "crypto_generichash/crypto_generichash.c"]}
 BOX_STUBS = GLUE_STUBS + ["ideal_hash.c", "ideal_dh.c", "rng.c"]
+AEGIS_UNITS = {256: ["crypto_aead/aegis256/aead_aegis256.c"], 128: ["crypto_aead/aegis128l/aead_aegis128l.c"]}
+AEGIS_CUTS = {256: [["--replace-calls", "aegis256_init:cut_init"], ["--replace-calls", "aegis256_mac:cut_mac"]],
+              128: [["--replace-calls", "aegis128l_init:cut_init"], ["--replace-calls", "aegis128l_mac:cut_mac"]]}
+AEGIS_STUBS = ["ideal_aes.c", "misuse.c", "libc.c", "x86_builtins.c", "rng.c"]
